@@ -286,6 +286,7 @@ class Fitter:
         open_start = slice.open_start - slice_depth
         taken = 0
         add = []
+        placed_last: Node | None = None
         frontier_item = self.frontier[frontier_depth]
         match, type_ = frontier_item.match, frontier_item.type
         if inject:
@@ -314,6 +315,8 @@ class Fitter:
                         open_end_count if taken == fragment.child_count else -1,
                     ),
                 )
+                if taken == fragment.child_count:
+                    placed_last = add[-1]
 
         to_end = taken == fragment.child_count
         if not to_end:
@@ -335,7 +338,10 @@ class Fitter:
         ):
             self.close_frontier_node()
 
-        cur = fragment
+        # Walk the nodes as they were placed (closed at their start, with any
+        # required leading content filled in), not the raw slice nodes, whose
+        # content may be an invalid prefix.
+        cur = Fragment.from_(placed_last) if placed_last is not None else fragment
         for _ in range(open_end_count):
             node = cur.last_child
             assert node is not None
